@@ -236,6 +236,11 @@ Definition addrs : list (cid * oid) := flat_map (fun c => map (fun o => (c, o)) 
 Definition ref_status_section (s : state) (e : N) (nf_absent : bool) (l : list N) : bool :=
   zip_ok (fun (a : cid * oid) cl => class_ok nf_absent (status_at s e (fst a) (snd a)) (bucket_stored s (fst a) (snd a)) cl) addrs l.
 
+(* the same, ignoring addresses of the known class *)
+Definition ref_status_section_m (s : state) (e : N) (nf_absent : bool) (l : list N) : bool :=
+  zip_ok (fun (a : cid * oid) cl => excluded s e (fst a) (snd a) ||
+            class_ok nf_absent (status_at s e (fst a) (snd a)) (bucket_stored s (fst a) (snd a)) cl) addrs l.
+
 Definition ref_ec_section (s : state) (l : list N) : bool :=
   zip_ok (fun (a : cid * oid * (N * option N)) x =>
             let cl := x / 1000000 in
@@ -243,6 +248,20 @@ Definition ref_ec_section (s : state) (l : list N) : bool :=
                       | None => NotFound   (* ResolveECPart: no bucket = not found *)
                       | Some _ => status_at s (epoch s) (fst (fst a)) (snd (fst a))
                       end in
+            match st with
+            | Available => (cl =? v_ok) || (cl =? v_notfound) || (cl =? v_split)
+            | _ => cl =? class_of_status st
+            end)
+         (flat_map (fun a => map (fun p => (a, p)) ec_probes) addrs) l.
+
+Definition ref_ec_section_m (s : state) (l : list N) : bool :=
+  zip_ok (fun (a : cid * oid * (N * option N)) x =>
+            let cl := x / 1000000 in
+            let st := match sm_get (fst (fst a)) (cnrs s) with
+                      | None => NotFound
+                      | Some _ => status_at s (epoch s) (fst (fst a)) (snd (fst a))
+                      end in
+            excluded s (epoch s) (fst (fst a)) (snd (fst a)) ||
             match st with
             | Available => (cl =? v_ok) || (cl =? v_notfound) || (cl =? v_split)
             | _ => cl =? class_of_status st
@@ -260,6 +279,22 @@ Definition ref_search_section (s : state) (l : list N) : bool :=
   list_eqb N.eqb l
     (flat_map (fun c => let r := match sm_get c (cnrs s) with Some b => search_in b (epoch s) | None => [] end in
                         N.of_nat (length r) :: r) u_cnrs).
+
+(* search, ignoring IDs of the known class on both sides *)
+Fixpoint dec_lists (fuel : nat) (l : list N) : list (list N) :=
+  match fuel with
+  | O => []
+  | S f => match l with
+           | [] => []
+           | n :: r => firstn (N.to_nat n) r :: dec_lists f (skipn (N.to_nat n) r)
+           end
+  end.
+Definition ref_search_section_m (s : state) (l : list N) : bool :=
+  list_eqb (list_eqb N.eqb)
+    (map (fun cl : cid * list N => filter (fun o => negb (excluded s (epoch s) (fst cl) o)) (snd cl))
+         (combine u_cnrs (dec_lists (length u_cnrs) l)))
+    (map (fun c => filter (fun o => negb (excluded s (epoch s) c o))
+                          (match sm_get c (cnrs s) with Some b => search_in b (epoch s) | None => [] end)) u_cnrs).
 
 (* set equality of two duplicate-free triple lists given in arbitrary order *)
 Definition triple_eqb (a b : cid * oid * otype) : bool :=
@@ -334,6 +369,16 @@ Definition ref_obs (s : state) (v : list (list N)) : list nat :=
   (if ref_pages_section s (sec sec_pages) then [] else [sec_pages]) ++
   (if ref_expired_section s (sec sec_expired) then [] else [sec_expired]).
 
+(* failing sections after ignoring addresses of the known class of C01 *)
+Definition ref_obs_masked (s : state) (v : list (list N)) : list nat :=
+  let sec i := match nth_error v i with Some l => l | None => [] end in
+  (if ref_status_section_m s (epoch s) false (sec sec_exists) then [] else [sec_exists]) ++
+  (if ref_status_section_m s 0 false (sec sec_existsi) then [] else [sec_existsi]) ++
+  (if ref_status_section_m s (epoch s) true (sec sec_get) then [] else [sec_get]) ++
+  (if ref_status_section_m s (epoch s) true (sec sec_getraw) then [] else [sec_getraw]) ++
+  (if ref_search_section_m s (sec sec_search) then [] else [sec_search]) ++
+  (if ref_ec_section_m s (sec sec_ec) then [] else [sec_ec]).
+
 (* pass 1: reference rules against the views of the model state.  Where the
    digests agree these are the dumped state and the views the implementation
    reported. *)
@@ -363,7 +408,9 @@ Fixpoint both_hist (h k : nat) (s : state) (l : hist) : list N :=
        | Some d =>
            let v := model_views s' in
            (if digest (enc_state s') v =? d then [] else [code h k sec_digest]) ++
-           map (fun sec => code h k (50 + sec)) (ref_obs s' v)
+           (let r := ref_obs s' v in
+            map (fun sec => code h k (50 + sec)) r ++
+            match r with [] => [] | _ => map (fun sec => code h k (70 + sec)) (ref_obs_masked s' v) end)
        end) ++
       both_hist h (S k) s' r
   end.
@@ -380,5 +427,8 @@ Definition full_model (i : nat) (f : fullc) : list N :=
   map (code i 0) (diff_sections 0 (model_views s) (fc_views f)).
 Definition full_ref (i : nat) (f : fullc) : list N :=
   map (code i 0) (ref_obs (dec_state (fc_state f)) (fc_views f)).
+Definition full_ref_masked (i : nat) (f : fullc) : list N :=
+  map (code i 0) (ref_obs_masked (dec_state (fc_state f)) (fc_views f)).
+Definition full_ref_masked_mismatches (l : list fullc) : list N := mism_from full_ref_masked 0 l.
 Definition full_model_mismatches (l : list fullc) : list N := mism_from full_model 0 l.
 Definition full_ref_mismatches (l : list fullc) : list N := mism_from full_ref 0 l.
